@@ -411,7 +411,7 @@ Definition old_machine : policy := mkPol false ExitNoWait.        (* regression:
      request      previewRequest.scrollOffset = evaluateScrollOffset() (spec: requested_offset), copied to
                   initialOffset; goroutine 2 starts with offset := initialOffset, spinnerIndex := -1, lines := []
      GLine        a line arrives from goroutine 1: lines = append(lines, line)
-     GTick        the 100 ms ticker: if len(lines) > 0 && len(lines) >= initialOffset { if spinnerIndex >= 0
+     GTick        the 100 ms ticker: if len(lines) > 0 && len(lines) > initialOffset { if spinnerIndex >= 0
                   { reqBox.Set(reqPreviewDisplay, {version, lines, offset, spin}); offset = -1 }; spinnerIndex++ }
      GEof         the read error: reqBox.Set(reqPreviewDisplay, {version, lines, offset, ""}); the goroutine ends
      RDisplay     render loop: t.previewer.lines = result.lines; if result.offset >= 0 (no follow):
@@ -419,10 +419,16 @@ Definition old_machine : policy := mkPol false ExitNoWait.        (* regression:
    reqBox keeps ONE value per event type: a result that is published before the previous one was handled
    replaces it (and with it the offset the previous one carried).
 
-   sm_gate = false is the machine without the `len(lines) >= initialOffset` condition (regression witness).
+   The condition on initialOffset in GTick is a policy: GateGt `len(lines) > initialOffset` is the tree (since
+   01c8ad4); GateGe `len(lines) >= initialOffset` is the tree before 01c8ad4 (regression witness); GateNone is the
+   machine without the condition (regression witness).
    Ghost flags (they influence no transition): k_lost = a pending result that carried the offset was replaced;
    k_edge = a partial result was published when len(lines) = initialOffset exactly (the requested line is not
-   there yet, the offset is clamped one line short: known finding c20-scroll-edge). *)
+   there yet, the offset is clamped one line short: the defect repaired by 01c8ad4; impossible under GateGt). *)
+
+Inductive gate := GateNone | GateGe | GateGt.
+Definition gate_open (g : gate) (req n : Z) : bool :=
+  match g with GateNone => true | GateGe => req <=? n | GateGt => req <? n end.
 
 Record sstate := mkK {
   k_n : Z;                          (* len(lines) in goroutine 2 *)
@@ -441,14 +447,14 @@ Definition sinit (req w0 : Z) : sstate := mkK 0 None (Some req) None 0 w0 false 
 Definition carries_offset (b : option (Z * option Z)) : bool :=
   match b with Some (_, Some _) => true | _ => false end.
 
-Definition sstep (gate : bool) (req headers : Z) (l : slabel) (s : sstate) : option sstate :=
+Definition sstep (g : gate) (req headers : Z) (l : slabel) (s : sstate) : option sstate :=
   match l with
   | GLine =>
       if k_eof s then None
       else Some (mkK (k_n s + 1) (k_spin s) (k_off s) (k_box s) (k_wn s) (k_woff s) false (k_lost s) (k_edge s))
   | GTick =>
       if k_eof s then None
-      else if (0 <? k_n s) && (negb gate || (req <=? k_n s)) then
+      else if (0 <? k_n s) && gate_open g req (k_n s) then
         match k_spin s with
         | Some i =>
             Some (mkK (k_n s) (Some (S i)) None (Some (k_n s, k_off s)) (k_wn s) (k_woff s) false
@@ -471,10 +477,10 @@ Definition sstep (gate : bool) (req headers : Z) (l : slabel) (s : sstate) : opt
       end
   end.
 
-Fixpoint srun (gate : bool) (req headers : Z) (sched : list slabel) (s : sstate) : sstate :=
+Fixpoint srun (g : gate) (req headers : Z) (sched : list slabel) (s : sstate) : sstate :=
   match sched with
   | [] => s
-  | l :: r => srun gate req headers r (match sstep gate req headers l s with Some s' => s' | None => s end)
+  | l :: r => srun g req headers r (match sstep g req headers l s with Some s' => s' | None => s end)
   end.
 
 (* the command has ended and the render loop has nothing left to handle *)
